@@ -442,8 +442,40 @@ impl<'a> Exec<'a> {
             }
             self.trace(format!("op{i} {}", short_op(op)));
             self.exec_op(op);
+            if self.fault_profile && !self.stop {
+                self.check_integrity_after_fault(i);
+            }
         }
         self.out.workload_ops = self.dir.op_count();
+    }
+
+    /// C11: once a fault has fired, after every further operation the state on storage must still be
+    /// one whole allowed commit that opens and reads ("the last successful commit stays intact on
+    /// storage and searchable"), whatever the in-memory state of the writer is.
+    fn check_integrity_after_fault(&mut self, i: usize) {
+        if self.dir.with(|s| s.first_fault_at.is_none()) {
+            return;
+        }
+        let armed = self.dir.with(|s| {
+            let a = s.armed;
+            s.armed = false;
+            a
+        });
+        let now = self.dir.op_count();
+        let allowed = self.allowed_at(now);
+        let img = self.dir.visible_at(now);
+        let res = self.open_and_match(&img, &allowed);
+        self.dir.arm(armed);
+        self.out.probe("integrity_checks_after_fault");
+        if let Err(msg) = res {
+            let ff = self.dir.with(|s| format!("{:?}", s.first_fault_at));
+            self.out.violate(
+                "C11",
+                "storage_state_after_fault",
+                format!("after op{i} (first fault {ff}) the index on storage: {msg}"),
+            );
+            self.stop = true;
+        }
     }
 
     pub fn exec_op(&mut self, op: &Op) {
@@ -733,11 +765,22 @@ impl<'a> Exec<'a> {
         let k = if ids.len() == 1 { 1 } else { rng.range(2.min(ids.len() as u64), ids.len() as u64) as usize };
         ids.truncate(k);
         self.out.probe("merge_explicit_started");
+        // translation check (C04): a waited merge of an unsorted index stacks the alive documents of
+        // its sources in the order the segments were given
+        let before = if wait && self.case.cfg.sorted.is_none() && !self.fault_profile {
+            dump::dump_index(&self.index, &self.fields).ok()
+        } else {
+            None
+        };
+        let w = self.writer.as_mut().unwrap();
         match catch(|| w.merge(&ids)) {
             Err(p) => self.api_panic("merge", p),
             Ok(fut) => {
                 if wait {
-                    self.wait_merge(fut);
+                    let produced = self.wait_merge(fut);
+                    if let (Some(before), Some(meta)) = (before, produced) {
+                        self.check_merge_order(&before, &ids, &meta);
+                    }
                 } else {
                     self.pending_merges.push(fut);
                 }
@@ -745,10 +788,36 @@ impl<'a> Exec<'a> {
         }
     }
 
-    fn wait_merge(&mut self, fut: FutureResult<Option<SegmentMeta>>) {
+    fn check_merge_order(&mut self, before: &Dump, ids: &[SegmentId], meta: &SegmentMeta) {
+        let Ok(after) = dump::dump_index(&self.index, &self.fields) else { return };
+        let new_id = meta.id().uuid_string();
+        let Some(seg) = after.segments.iter().find(|s| s.segment == new_id) else { return };
+        let mut expected: Vec<u64> = vec![];
+        for id in ids {
+            let sid = id.uuid_string();
+            match before.segments.iter().find(|s| s.segment == sid) {
+                Some(s) => expected.extend(s.docs.iter().map(|(_, r)| r.uid)),
+                None => return, // a source was not part of the committed view (uncommitted segment)
+            }
+        }
+        let got: Vec<u64> = seg.docs.iter().map(|(_, r)| r.uid).collect();
+        self.out.probe("merge_order_checked");
+        if got != expected {
+            self.out.violate(
+                "C04",
+                "merge_order",
+                format!("merge of {:?} produced documents {got:?}, the sources stacked in order are {expected:?}", ids.iter().map(|i| i.uuid_string()).collect::<Vec<_>>()),
+            );
+        }
+    }
+
+    fn wait_merge(&mut self, fut: FutureResult<Option<SegmentMeta>>) -> Option<SegmentMeta> {
         match catch(|| fut.wait()) {
             Err(p) => self.api_panic("merge.wait", p),
-            Ok(Ok(Some(_))) => self.out.probe("merge_explicit_ok"),
+            Ok(Ok(Some(m))) => {
+                self.out.probe("merge_explicit_ok");
+                return Some(m);
+            }
             Ok(Ok(None)) => self.out.probe("merge_explicit_empty"),
             Ok(Err(e)) => {
                 // a merge whose sources vanished (rollback, delete_all, competing merge) is
@@ -761,12 +830,13 @@ impl<'a> Exec<'a> {
                 }
             }
         }
+        None
     }
 
     fn op_merge_wait(&mut self) {
         let futs = std::mem::take(&mut self.pending_merges);
         for f in futs {
-            self.wait_merge(f);
+            let _ = self.wait_merge(f);
         }
     }
 
